@@ -1203,6 +1203,13 @@ func (ld *loader) tidyRoots(ctx context.Context, old *modrequirements.Requiremen
 // spotCheckRoots reports whether the versions of the roots in rs satisfy the
 // explicit requirements of the modules in mods.
 func (ld *loader) spotCheckRoots(ctx context.Context, rs *modrequirements.Requirements, mods map[module.Version]bool) bool {
+	// The derived context only tells the checks that have not started yet that
+	// they need not start. Requests to the registry are made with the caller's
+	// context: a request cancelled half way fails with "context canceled", and a
+	// registry that remembers the outcome of a request (the module cache does)
+	// would then answer every later request for that module file with that error,
+	// which made tidy fail depending on which check happened to be in flight.
+	reqCtx := ctx
 	ctx, cancel := context.WithCancel(ctx)
 	defer cancel()
 
@@ -1213,7 +1220,7 @@ func (ld *loader) spotCheckRoots(ctx context.Context, rs *modrequirements.Requir
 			if ctx.Err() != nil {
 				return
 			}
-			mf, err := ld.registry.ModFile(ctx, m)
+			mf, err := ld.registry.ModFile(reqCtx, m)
 			if err != nil {
 				cancel()
 				return
